@@ -484,6 +484,51 @@ class Record:
         return f"{self.tname}({', '.join(self.fields)})"
 
 
+class Instance(Record):
+    """Object of a plain repository class (no bases, no decorators, only methods in the body), instantiated symbolically:
+    `__init__` is interpreted with `self` bound to the object and stores its attributes (`self.x = v`, only while the
+    constructor runs); methods and properties are then looked up in the class scope like those of a Record."""
+    def __init__(self, tname, cls):
+        super().__init__(tname, [], [], cls=cls)
+        self.constructing = False
+
+    def store(self, name, value):
+        if name in self.fields:
+            self.values[self.fields.index(name)] = value
+        else:
+            self.fields.append(name)
+            self.values.append(value)
+
+    def __repr__(self):
+        return f"<instance of {self.tname}>"
+
+
+def plain_class_init(csc):
+    """the `__init__` scope (or False when there is none) of a class whose instances can be modelled by `Instance`; None otherwise:
+    no base classes / keywords / decorators, a body of plain methods and properties only, no special method besides __init__"""
+    node = csc.node
+    if not isinstance(node, ast.ClassDef) or node.keywords or node.decorator_list:
+        return None
+    if any(not (isinstance(b, ast.Name) and b.id == "object") for b in node.bases):
+        return None
+    for st in node.body:
+        if isinstance(st, ast.Pass) or (isinstance(st, ast.Expr) and isinstance(st.value, ast.Constant) and isinstance(st.value.value, str)):
+            continue
+        if not isinstance(st, ast.FunctionDef):
+            return None
+        if any(norm_src(d) != "property" for d in st.decorator_list):
+            return None
+        if st.name.startswith("__") and st.name.endswith("__") and st.name not in ("__init__", "__repr__", "__str__"):
+            return None
+        a = st.args
+        if not (a.posonlyargs + a.args) or st.name in [m.name for m in node.body if isinstance(m, ast.FunctionDef) and m is not st]:
+            return None
+    for c in csc.children:
+        if c.kind == "function" and c.name == "__init__":
+            return c
+    return False
+
+
 class Ext:
     def __init__(self, name):
         self.name = name
@@ -890,9 +935,12 @@ class Interp:
                 key = Arr([Dual(i) for i in keep], (len(keep),))
             if isinstance(key, Arr):      # integer-array (gather) indexing along the first axis
                 rows = [base.index(self.as_int(k)) for k in key.ravel().data]
+                # numpy: the result has the shape of the index array followed by the shape of one row (a table of indices of
+                # two or more dimensions gathers into that many leading axes; vectors as before)
+                lead = tuple(key.shape) if key.ndim >= 2 else (len(rows),)
                 if all(isinstance(r, Dual) for r in rows):
-                    return Arr(rows, (len(rows),))
-                return Arr([x for r in rows for x in r.data], (len(rows),) + tuple(rows[0].shape))
+                    return Arr(rows, lead)
+                return Arr([x for r in rows for x in r.data], lead + tuple(rows[0].shape))
             return base.index(key)
         if isinstance(base, PosVec):
             return base.item(self.as_int(key))
@@ -903,6 +951,8 @@ class Interp:
                 raise LookupFailed(f"missing key {key!r}")
         if isinstance(base, (tuple, list)):
             return base[key]
+        if isinstance(base, Instance):
+            raise EvalError(f"subscript of {base!r}")
         if isinstance(base, Record):
             return base.values[key]
         if isinstance(base, AtProxy):
@@ -1176,7 +1226,28 @@ class Interp:
                             raise EvalError(f"unknown field {k} of {name}")
                         vals[fields.index(k)] = v
                     return Record(csc.name, fields, vals, cls=csc)
+                if not fields:
+                    init = plain_class_init(csc)
+                    if init is not None:
+                        return self.instantiate(csc, init, args, kwargs)
         raise EvalError(f"external function {name}")
+
+    def instantiate(self, csc, init, args, kwargs):
+        """object of a plain repository class: run `__init__` with self = the new object"""
+        obj = Instance(csc.name, csc)
+        self.visited.add(csc.qualname)
+        if init is False:
+            if args or kwargs:
+                raise EvalError(f"class {csc.qualname} takes no arguments")
+            return obj
+        obj.constructing = True
+        try:
+            r = self.call_closure(Closure(init, self.module_env(csc.module)), [obj] + list(args), kwargs)
+        finally:
+            obj.constructing = False
+        if r is not None:
+            raise EvalError(f"__init__ of {csc.qualname} returns a value")
+        return obj
 
     def spectral(self, fname, A, extra=None):
         if not isinstance(A, Arr) or not A.is_diagonal():
@@ -1422,6 +1493,35 @@ class Interp:
             if x.ndim == 1:
                 k = x.shape[0]
                 return Arr([x.data[i] if i == j else Dual(0) for i in range(k) for j in range(k)], (k, k))
+        if fn == "take" and len(args) >= 2 and set(kwargs) <= {"axis"}:
+            # np.take(a, constant integer indices, axis): the gather a[indices] along `axis` (axis=None: of the flattened array)
+            x, idx = n(args[0]), args[1]
+            ax = kwargs.get("axis", args[2] if len(args) > 2 else None)
+            if len(args) > 3 or not isinstance(x, Arr):
+                raise EvalError("take: unsupported arguments")
+            idx = Arr.from_nested(idx) if isinstance(idx, (list, tuple)) else idx
+            ks = [self.as_int(k) for k in idx.data] if isinstance(idx, Arr) else [self.as_int(idx)]
+            if isinstance(idx, Arr) and idx.isbool or any(k < 0 for k in ks):
+                raise EvalError("take: negative or boolean indices")
+            key = Arr([Dual(k) for k in ks], idx.shape) if isinstance(idx, Arr) else ks[0]
+            if ax is None:
+                return self.getitem(x.ravel(), key)
+            ax = self.as_int(ax)
+            ax = ax + x.ndim if ax < 0 else ax
+            if ax == 0:
+                return self.getitem(x, key)
+            if ax == 1 and x.ndim == 2 and (not isinstance(key, Arr) or key.ndim == 1):
+                out = self.getitem(x.T(), key)
+                return out.T() if isinstance(out, Arr) else out
+            raise EvalError("take along an inner axis")
+        if fn == "roll" and len(args) >= 2 and set(kwargs) <= {"axis"}:
+            # np.roll of a vector by a constant shift: out[i] = x[(i - shift) mod n]
+            x = n(args[0])
+            ax = kwargs.get("axis", args[2] if len(args) > 2 else None)
+            if len(args) > 3 or not isinstance(x, Arr) or x.ndim != 1 or x.shape[0] == 0 or (ax is not None and self.as_int(ax) not in (0, -1)):
+                raise EvalError("roll of an array that is not a vector")
+            s_, k = self.as_int(args[1]), x.shape[0]
+            return Arr([x.data[(i - s_) % k] for i in range(k)], x.shape)
         raise EvalError(f"numpy function {fn}")
 
     # ---- helpers of the builtins (zip / enumerate / sum / map)
@@ -1431,6 +1531,8 @@ class Interp:
             if v.ndim == 0:
                 raise EvalError("iteration over a 0-d array")
             return [v.index(i) for i in range(v.shape[0])]
+        if isinstance(v, Instance):
+            raise EvalError(f"iteration over {v!r}")
         if isinstance(v, Record):
             return list(v.values)
         if isinstance(v, dict):
@@ -1577,6 +1679,8 @@ class Interp:
         if isinstance(t, ast.Name):
             env.vars[t.id] = v
         elif isinstance(t, (ast.Tuple, ast.List)):
+            if isinstance(v, Instance):
+                raise EvalError(f"unpacking of {v!r}")
             vs = list(v.values) if isinstance(v, Record) else list(v)
             if len(vs) != len(t.elts):
                 raise EvalError("unpack width")
@@ -1600,6 +1704,15 @@ class Interp:
                     e_ = e_.parent
             else:
                 raise EvalError("subscript store")
+        elif isinstance(t, ast.Attribute):
+            base = self.eval(t.value, env)
+            if not isinstance(base, Instance):
+                raise EvalError("assignment target")
+            if not base.constructing:
+                raise EvalError(f"attribute {t.attr} of {base!r} is stored after its construction")
+            if any(c.kind == "function" and c.name == t.attr for c in base.cls.children):
+                raise EvalError(f"attribute {t.attr} of {base!r} shadows a method")
+            base.store(t.attr, v)
         else:
             raise EvalError("assignment target")
 
